@@ -317,7 +317,7 @@ Proof. intros k e X. discriminate X. Qed.
 
 Theorem reachable_EmInv c mc t now st : reach_cf c (cinit c mc t now) st -> EmInv st.
 Proof.
-  induction 1 as [|st l st' o R IH L NL S]; [apply EmInv_init|].
+  induction 1 as [|st l st' o R IH L S]; [apply EmInv_init|].
   destruct (reach_cf_inv _ _ _ _ _ R) as (_ & (_ & _ & Z & _)). eapply EmInv_step; eassumption.
 Qed.
 
